@@ -126,7 +126,7 @@ VOCAB = {
     'layer': [lambda: NSLayer.L2, lambda: NSLayer.L3, lambda: NSLayer.L0, lambda: NSLayer.L1],
     'technology': [lambda: 'tech-1'],
     'ero': [lambda: _path('Path', True, False), lambda: _path('Path', True, True), lambda: _path('Graph', True, True)],
-    'path_info': [lambda: _path('Path', False), lambda: _path('Graph', False)],
+    'path_info': [lambda: _path('Path', False), lambda: _path('Graph', False), lambda: PathInfo()],
     'controller_url': [lambda: 'http://controller:6653'],
     'gateway': [lambda: Gateway(Labels(ipv4_subnet='192.168.1.0/24', ipv4='192.168.1.1')),
                 lambda: Gateway(Labels(ipv6_subnet='2001:db8::/64', ipv6='2001:db8::1', mac='00:11:22:33:44:55'))],
